@@ -8,6 +8,7 @@ Three seams (all real code, no sockets):
 import contextlib
 import itertools
 import random as _random
+import sys
 import threading
 
 from . import wire
@@ -303,24 +304,52 @@ def patch_recv():
     _recv_patched = True
 
 
-class Session:
-    """Runs main.enip_srv_tcp(conn, addr, ...) on its own thread; exactly one of harness/server runs at a time."""
+class StepBudgetExceeded(BaseException):
+    """Raised inside the server thread (from the profile hook) when it exceeds its hard step cap: a hang made finite."""
 
-    def __init__(self, sim, addr=("127.0.0.1", 10001), name=None):
+
+class Session:
+    """Runs main.enip_srv_tcp(conn, addr, ...) on its own thread; exactly one of harness/server runs at a time.
+
+    enip_process: replace the request processor (e.g. a spy around logix.process).
+    count_steps:  count Python function calls made by the server thread (deterministic measure of work: self.steps);
+                  step_cap aborts the thread with StepBudgetExceeded when exceeded.
+    runner:       run through network.server_thread(...).run(), the production per-connection wrapper."""
+
+    def __init__(self, sim, addr=("127.0.0.1", 10001), name=None, enip_process=None, count_steps=False, step_cap=None,
+                 runner=False):
         patch_recv()
         self.sim = sim
         self.addr = addr
         self.conn = FakeConn(name or "conn%s" % (addr[1],))
         self.exc = None
         self.finished = False
+        self.steps = 0
+        self.step_cap = step_cap
         M = sim.M
+        process = enip_process or M.logix.process
+
+        def hook(frame, event, arg):
+            if event == "call":
+                self.steps += 1
+                if self.step_cap is not None and self.steps > self.step_cap:
+                    sys.setprofile(None)
+                    raise StepBudgetExceeded("server thread exceeded %d steps" % self.step_cap)
 
         def body():
             try:
-                M.main.enip_srv_tcp(self.conn, addr, name=self.conn.name, enip_process=M.logix.process, **sim.kwds)
+                if count_steps:
+                    sys.setprofile(hook)
+                if runner:
+                    t = M.network.server_thread(target=M.main.enip_srv_tcp, args=(self.conn, addr),
+                                                kwargs=dict(name=self.conn.name, enip_process=process, **sim.kwds))
+                    t.run()
+                else:
+                    M.main.enip_srv_tcp(self.conn, addr, name=self.conn.name, enip_process=process, **sim.kwds)
             except BaseException as exc:  # recorded for the oracle; enip_srv_tcp re-raises parse errors by design
                 self.exc = exc
             finally:
+                sys.setprofile(None)
                 self.finished = True
                 self.conn.to_harness.release()
 
